@@ -131,7 +131,9 @@ CheckCopy(S, id, o) ==
          /\ Say(o.r.v.cls, id, "C07", "copy.result_class:" \o a.via, why)
          /\ Say(o.r.v.selfdup = <<>>, id, "C07", "copy.node_twice:" \o a.via, why)
          /\ Say(o.r.v.src_same, id, "C07", "copy.source_changed:" \o a.via, why)
-         /\ Say(o.r.v.independent, id, "C07", "copy.not_independent:" \o a.via, why))
+         /\ Say(o.r.v.independent, id, "C07", "copy.not_independent:" \o a.via, why)
+         \* "later mutation histories on the copy": the new tree identifies data like the source tree does
+         /\ Say(o.r.v.like_source, id, "C07", "copy.tree_configuration_lost:" \o a.via, why))
 
 CheckFilter(S, id, o) ==
    LET a == o.a why == ToString([p |-> a.p, v |-> a.v, form |-> a.form])
